@@ -210,6 +210,9 @@ structure LS where
   quantities : Std.HashMap String (Dim × String) := {}     -- keyed by the rendered dimensionality
   decomposition : Std.HashMap String (Dim × String) := {}
   substances : Std.HashMap String Substance := {}
+  /-- ghost state (not a field of the registry): the text of every unit definition whose value
+  was a substance, for the fixed-point predicate of C08 -/
+  substDefs : Std.HashMap String Expr := {}
   symbols : Std.HashMap String String := {}
   categoryNames : Std.HashMap String String := {}
   docs : Std.HashMap String String := {}
@@ -440,7 +443,7 @@ def loadOne (st : LS) (id : Id) (d : Def) : LS :=
         | some s =>
           let s := if s.name.contains '+' then { s with name := name } else s
           let e' := if st.substances.contains name then st.errors ++ ["substance-conflict:unit:" ++ name] else st.errors
-          { st with substances := st.substances.insert name s, errors := e' }
+          { st with substances := st.substances.insert name s, errors := e', substDefs := st.substDefs.insert name e }
         | none => { st with errors := st.errors ++ ["unsupported:" ++ name] })
      | _ => { st with errors := st.errors ++ ["malformed:" ++ id.tag] })
   | .prefix_ e isLong =>
